@@ -151,6 +151,12 @@ func runC42(c *core.Ctx) {
 	}
 	for name := range c42Table {
 		if !seenFn[name] {
+			// the function is known to decide a quorum; if its comparison is still there but the
+			// bound is no longer a formula over the validator count alone, the threshold was changed
+			if why := c42ThresholdReplaced(c, name); why != "" {
+				c.Violate("C42.threshold-formula", name, "threshold ≡ one of "+strings.Join(c42Table[name], " | "), "", why)
+				continue
+			}
 			c.Broken("C42.site-classified", name, "table entry still has a threshold", "", "no division by 3/7 found in this function any more: update the table")
 		}
 	}
